@@ -43,6 +43,8 @@ var apiFiles = []treeFile{
 	{Name: "bad-in-insert", Src: "@use(\"~main\")@insert(\"title\", items[0] / 0)@insert(\"content\")PARTIAL-OUTPUT-MARKER body@end"},
 	{Name: "bad-in-for-cond", Src: "PARTIAL-OUTPUT-MARKER @for(i = 2; 6 / i > 1; i--)pass {{ i }} @end after"},
 	{Name: "bad-in-elseif", Src: "PARTIAL-OUTPUT-MARKER @if(items[0] > 5)no@elseif(items[0] / 0 > 1)never@else other@end after"},
+	{Name: "bad-in-each-else", Src: "PARTIAL-OUTPUT-MARKER @each(x in [])never@else in else {{ items[0] / 0 }}@end after"},
+	{Name: "bad-in-for-else", Src: "PARTIAL-OUTPUT-MARKER @for(i = 0; i < 0; i++)never@else in else {{ items[0] / 0 }}@end after"},
 	{Name: "bad-in-array", Src: "PARTIAL-OUTPUT-MARKER {{ [who, who, items[0] / 0] }} after"},
 	{Name: "bad-in-args", Src: "PARTIAL-OUTPUT-MARKER {{ [who].append(who, items[0] / 0).join(\"-\") }} after"},
 	// (one key only: the printed form of a loaded program, which the state snapshots compare, lists the keys of an
@@ -77,7 +79,7 @@ const fnMix = `|{{ items.join("-") }}|{{ items.reverse() }}|{{ items.slice(1) }}
 	`|{{ "abc".reverse() }}|{{ "héllo".len() }}|{{ "ab".repeat(3) }}|{{ "a,b,c".split(",") }}|{{ "  x ".trim() }}|{{ "abc".contains("b") }}` +
 	`|{{ "abc".at(-1) }}|{{ "abc".first() }}|{{ "abcdef".truncate(2) }}|{{ "ab cd".capitalize() }}|{{ "12".decimal() }}|{{ 3.5.round() }}` +
 	`|{{ 3.2.ceil() }}|{{ 3.7.floor() }}|{{ -2.abs() }}|{{ 2.float() }}|{{ 2.str() }}|{{ 1234.decimal() }}|{{ 2.5.int() }}|{{ 2.5.str() }}|{{ 2.5.abs() }}|{{ 12.len() }}|{{ "<b>".raw() }}|{{ true.binary() }}` +
-	`|{{ false.then("y", "n") }}|{{ {a: 1, b: [2, 3]} }}|@dump(items)`
+	`|{{ false.then("y", "n") }}|{{ {a: 1, b: [2, 3]} }}|@dump(items)|{{ items.shuffle().len() }}|{{ items.rand() > 0 }}`
 
 // the pages contain per cent signs: what Response writes is the page, byte for byte
 const okPage = "<h>BO1</h><b>(1,)(2,)(3)[Bo:BO]</b><p>100% %d %s %%</p>"
@@ -259,7 +261,7 @@ func (e *apiEnv) run(o apiOp) (sig string, body string, ok bool) {
 		case "row2":
 			src = "s:{{ r.name }}{{ r.count }}"
 		default:
-			src = "s:{{ who }}{{ items[0] / 0 }}"
+			src = "s:{{ who }}@dump(items){{ items[0] / 0 }}"
 		}
 		out, err := textwire.EvaluateString(src, data)
 		if err != nil {
